@@ -557,7 +557,32 @@ fn run_same(ws: &[&str]) -> String {
     let port = listener.local_addr().unwrap().port();
     let (done_tx, done_rx) = mpsc::channel();
     let server = std::thread::spawn(move || serve(listener, reply, port, done_rx));
+    // in two thirds of the cases the SAME thread first makes other calls through the same adapter: one that succeeds and one
+    // that fails after part of a reply body has arrived (the failing one immediately before the observed call)
+    let pre = ws.iter().flat_map(|w| w.bytes()).fold(0xcbf29ce484222325u64, |h, b| (h ^ b as u64).wrapping_mul(0x100000001b3)) >> 19 & 3 != 0;
+    let mut pre_servers = vec![];
+    let mut pre_ports = vec![];
+    if pre {
+        for (fault, body) in [("none", &b"{\"stale\":true}"[..]), ("truncated", &b"{\"error\":\"STALE-STALE-STALE\",\"access_token\":\"STALE-STALE-STALE-STALE\",\"token_type\":\"bearer\"}"[..])] {
+            let l = TcpListener::bind("127.0.0.1:0").unwrap();
+            let p = l.local_addr().unwrap().port();
+            let (tx, rx) = mpsc::channel::<()>();
+            let r = Reply { status: 200, ct: Some(b"application/json".to_vec()), framing: "cl".into(), body: body.to_vec(), fault: fault.into(), flags: vec![], nested: None };
+            pre_servers.push((std::thread::spawn(move || serve(l, r, p, rx)), tx));
+            pre_ports.push(p);
+        }
+    }
     let out = with_watchdog(move || {
+        for p in pre_ports {
+            let pr = http::Request::builder()
+                .method(http::Method::POST)
+                .uri(format!("http://127.0.0.1:{}/stale", p))
+                .header(http::header::ACCEPT, "application/json")
+                .header(http::header::CONTENT_TYPE, "application/x-www-form-urlencoded")
+                .body(b"stale=request-body".to_vec())
+                .unwrap();
+            let _ = call_adapter(&adapter, pr);
+        }
         let base = format!("http://127.0.0.1:{}", port);
         let client = BasicClient::new(ClientId::new("aaa".to_string()))
             .set_client_secret(ClientSecret::new("bbb".to_string()))
@@ -640,6 +665,10 @@ fn run_same(ws: &[&str]) -> String {
     });
     let _ = done_tx.send(());
     let _ = server.join();
+    for (h, tx) in pre_servers {
+        let _ = tx.send(());
+        let _ = h.join();
+    }
     match out {
         Ok(s) => s,
         Err(why) => why.to_string(),
